@@ -16,4 +16,10 @@ def register(REG):
         'C11': (batcher.c11, 'atomic lookup-or-create, miss-only enqueue, eviction on all exits with the configured delay, sharers never evict, default key'),
         'C15': (batcher.c15, 'partial == option set for the three option decorators, option def-use chains, per-loop weak registry'),
     })
+    from . import buffer
+    REG.update({
+        'C03': (buffer.c03, 'retention until success, success-only flag, no dropped producer, contained producer failures, entry points funnel to a thread-safe hand-off, thread affinity of queue and flag'),
+        'C07': (buffer.c07, 'join->flag order in wait(), clear-before-done atomicity, get/task_done pairing, cancel target, flush edges, daemon cancel transparency'),
+        'C08': (buffer.c08, 'single serial call site, non-empty guard, timer as the sole trigger re-armed per arrival with the configured value, drain-before-arm'),
+    })
 
